@@ -65,7 +65,7 @@ var properties = map[string]*PropertySpec{}
 
 // thoroughUsesQuickBounds: see cmdCheck. Filled from the last complete thorough sweep (DESIGN 8.16).
 var thoroughUsesQuickBounds = map[string]bool{
-	"C01": true, "C02": true, "C04": true, "C07": true, "C08": true, "C10": true, "C13": true, "C16": true,
+	"C01": true, "C04": true, "C07": true, "C08": true, "C10": true, "C16": true,
 }
 
 type ReplayFile struct {
